@@ -141,6 +141,10 @@ def gen(r, tier):
         yield "%s ;; %s" % (cfg, p)
     # the same meaning on the cluster executor (C04 varies the strategy systematically; here: that a program's rows are the
     # prescribed ones there at all — several machines, machine combiners, many reduce tasks per machine)
+    # many map-side tasks of one Reduce on one machine with a shared (machine) combiner: contention for the combiner
+    for rows, keys in ((40000, 1000), (24000, 64)):
+        for cfg in ("bm M8 P8 MC", "bm M6 P6 MC CH8"):
+            yield "%s ;; N0=lines 8 %d ; N1=map N0 mod%d ; N2=reduce N1 add ; OUT N2" % (cfg, rows, keys)
     n = 60 if tier == "quick" else 1500
     for i in range(n):
         cfg = r.choice(["bm M2 P4", "bm M2 P4 MC", "bm M1 P3", "bm M4 P8 MC CH8", "bm M2 P6 MC"])
